@@ -239,6 +239,54 @@ def run(ck: Check) -> int:
                    'both FORCE flags cancel; glob FORCEWIN: separator spellings interchangeable and equal to Unix+IGNORECASE on the '
                    'normalised name (patterns without backslashes); drive/UNC prefixes literal and case-insensitive')
     ck.search('case-and-platform-api', s_search)
+
+    def s_cancel(sr):
+        # FORCEWIN together with FORCEUNIX cancel out — at EVERY entry point, translate and is_magic included (added after seeded
+        # change C17h: fnmatch.translate masked its flags instead of transforming them, so its regexes followed Windows rules
+        # while fnmatch.fnmatch with the same flags followed the host's)
+        pats = ['a/B', 'A*', '[a-c]X', 'c:/x*', '//h/s/*', 'a\\\\b', '*/b', '@(a|B)/c', 'A', ['a', 'B/*'], '!A*']
+        names = ['a/B', 'a/b', 'A', 'a', 'aX', 'AX', 'c:/xy', 'C:/xy', '//h/s/q', 'a\\b', 'a/b/', 'x/b', 'B/c', 'b/c', 'a\\B']
+        sr.note = (f'{len(pats)} patterns x case flags {{none, CASE, IGNORECASE, both}} x {{EXTMATCH, NEGATE, DOTMATCH}}: every fnmatch / glob entry point '
+                   '(fnmatch, filter, compile().match, translate, is_magic; globmatch, globfilter, compile().match, translate, is_magic, escape default) '
+                   'with FORCEWIN|FORCEUNIX gives what it gives with neither')
+        for p in pats:
+            for cm in (0, F.CASE, F.IGNORECASE, F.CASE | F.IGNORECASE):
+                for extra in (0, F.EXTMATCH, F.NEGATE | F.EXTMATCH, F.DOTMATCH):
+                    for mod, nm in ((F, 'fnmatch'), (G, 'glob')):
+                        base = cm | extra
+                        both = base | mod.FORCEWIN | mod.FORCEUNIX
+                        pm = (lambda x: x) if nm == 'fnmatch' else (lambda x: x)
+                        calls = {
+                            'translate': lambda fl: mod.translate(p, flags=fl),
+                            'compile.match': lambda fl: [bool(mod.compile(p, flags=fl).match(x)) for x in names],
+                            'is_magic': lambda fl: [mod.is_magic(q, flags=fl) for q in ([p] if isinstance(p, str) else p)],
+                        }
+                        if nm == 'fnmatch':
+                            calls['fnmatch'] = lambda fl: [bool(F.fnmatch(x, p, flags=fl)) for x in names]
+                            calls['filter'] = lambda fl: F.filter(names, p, flags=fl)
+                        else:
+                            calls['globmatch'] = lambda fl: [bool(G.globmatch(x, p, flags=fl)) for x in names]
+                            calls['globfilter'] = lambda fl: G.globfilter(names, p, flags=fl)
+                        for api, call in calls.items():
+                            sr.evaluations += 1
+                            try:
+                                a, b = call(base), call(both)
+                            except Exception as ex:  # noqa: BLE001
+                                a, b = 'same', 'same'
+                                try:
+                                    call(base)
+                                    b = f'{type(ex).__name__}'
+                                    a = 'answer'
+                                except Exception:  # noqa: BLE001
+                                    pass
+                            if a != b:
+                                ck.report(Failing(f'{nm}.{api}: FORCEWIN|FORCEUNIX does not cancel out for {p!r}',
+                                                  {'api': f'{nm}.{api}', 'pattern': p, 'flags': both, 'names': names}, str(a)[:300], str(b)[:300]), None)
+                                sr.histogram['FAIL'] = sr.histogram.get('FAIL', 0) + 1
+                            else:
+                                sr.histogram['cancels'] = sr.histogram.get('cancels', 0) + 1
+        sr.distinct = len(pats) * 32
+    ck.search('force-flags-cancel-every-entry-point', s_cancel)
     if drv:
         drv.close()
     return ck.finish()
